@@ -8,7 +8,7 @@ from typestate import LockTS, derive_preconditions, LOCK
 from rules import common
 from rules.C06 import backward_direct, trace_moves
 from rules.C07 import dedupe_rule
-from rules.C08 import token_preconditions, token_read_guard, classify_waits, surplus_released
+from rules.C08 import token_preconditions, token_read_guard, classify_waits, surplus_released, blocking_selects
 
 EXPLANATION = (
     "Static rules that each exclude one way to abort on an internal assertion or to wait forever: typestate of every "
@@ -26,8 +26,8 @@ ASSUMPTIONS = ["unwind edges excluded", "the kernel wakes F_SETLKW waiters when 
 PANICKY = re.compile(r"core::panicking::.*|core::option::Option::(unwrap|expect)|core::result::Result::(unwrap|expect)|core::option::unwrap_failed|core::result::unwrap_failed")
 
 
-def lock_typestate(ctx, rid, body, role, roots=None, entry=None, single=False, exit_required=None, pre=None, exclude=()):
-    ts = LockTS(ctx.prog, body, roots or [], entry_state=entry, preconds=pre, single_object=single, exclude=exclude)
+def lock_typestate(ctx, rid, body, role, roots=None, entry=None, single=False, exit_required=None, pre=None, exclude=(), starts=None):
+    ts = LockTS(ctx.prog, body, roots or [], entry_state=entry, preconds=pre, single_object=single, exclude=exclude, starts=starts)
     n = 0
     calls = [(bb, det, st) for (bb, kind, st, det) in ts.events if kind == "call"]
     bad = {(bb, det[0]): (st, det[1]) for (bb, kind, st, det) in ts.events if kind == "precondition"}
@@ -62,6 +62,20 @@ def run(ctx):
     ctx.rule("R9.5", "the event loop never selects on an empty set without a timer, polls the root future on every iteration, and every custom future registers a wake-up before returning Pending")
     ctx.rule("R9.7", "retry loops do not grow a Duration without bound: a Duration multiplied inside a loop is clamped (cmp::min) before it is multiplied again (Duration arithmetic panics on overflow)")
     ctx.rule("R9.6", "inventory of assert/unwrap/expect sites reachable from the scheduler and the event loop (reported, not judged)")
+
+    # The scheduler = the body that constructs the jobs plus the coroutines it awaits in place (the retry loop of the
+    # locked-queue pass may live in an `async fn` of its own): [(body, poll block in S through which it runs | None)]
+    parts = [(S, None)]
+    handovers = []          # (awaiting body, poll block, ready block, awaited body)
+
+    def add_nested(B, via, depth=3):
+        for (pbb, ready, NB) in classify_waits(B, prog)["nested"]:
+            top = via if via is not None else pbb
+            handovers.append((B, pbb, ready, NB))
+            if all(NB.key != x.key for x, _ in parts) and depth > 0:
+                parts.append((NB, top))
+                add_nested(NB, top, depth - 1)
+    add_nested(S, None)
 
     asserts = {k: v for k, v in pre.items() if v}
     ctx.floor("R9.1", "Lock methods that assert on `owned`", len(asserts), 4)
@@ -114,10 +128,52 @@ def run(ctx):
                 n += c
             c, _ = lock_typestate(ctx, "R9.1", b, role, single=True, pre=pre, exclude=excl)
             n += c
-    ctx.floor("R9.1", "Lock method call sites with an obligation", n, 12)
-    # every body that calls an asserting Lock method was analysed
+    # any other body that creates locks and calls their methods (a part of the scheduler moved into a function /
+    # coroutine of its own): one analysis per new_lock site, like the scheduler
     analysed = {S.key} | {prog.one(k).key for k, _, _ in table} | {c.key for c in lock_closures}
     internal = {k for k in prog.bodies if k.startswith("state::Lock::") or k.startswith("<state::Lock as")}
+    exit_states = {}
+    for b in anchors.bodies_calling(prog, r"state::Lock::(unlock|try_lock|wait_lock|check)"):
+        if b.key in internal or b.key in analysed:
+            continue
+        bba = BA.of(b)
+        news = [i for i in bba.calls(r"state::ProcessState::new_lock|state::Lock::new")
+                if not b.blocks[i]["term"]["dest"]["p"] and b.locals[b.blocks[i]["term"]["dest"]["l"]] == LOCK]
+        users = set()
+        for k, i in common.ordinal_keys([("new_lock", i) for i in news]):
+            c, ts = lock_typestate(ctx, "R9.1", b, k, roots=[b.blocks[i]["term"]["dest"]["l"]], pre=pre)
+            n += c
+            users |= {bb for (bb, kind, st, det) in ts.events if kind == "call"}
+            # the state in which the lock leaves the body inside its result (`Ok(lock)`)
+            for (bb, kind, st, det) in ts.events:
+                if kind == "escape" and det in ("core::result::Result", "core::option::Option") and b.locals[0] and LOCK in b.locals[0]:
+                    exit_states.setdefault(b.key, set()).update(st)
+        # covered only if every asserting call of the body is on a lock it created itself
+        if news and all(i in users for i in bba.calls(r"state::Lock::(unlock|try_lock|wait_lock|check)")):
+            analysed.add(b.key)
+    # a lock handed over by an awaited coroutine: analysed in the awaiting body from the point where the result is
+    # unpacked, starting in the state in which the coroutine returned it
+    for k, (P, pbb, ready, NB) in common.ordinal_keys([("handed-over", h) for h in handovers]):
+        st0 = exit_states.get(NB.key)
+        if not st0:
+            continue
+        pba = BA.of(P)
+        pdest = P.blocks[pbb]["term"]["dest"]["l"]
+        roots, starts = [], {}
+        for l, ty in enumerate(P.locals):
+            if ty != LOCK:
+                continue
+            ds = [d for d in pba.defs.get(l, []) if d[0] == "stmt"]
+            if len(ds) != 1 or ds[0][3]["k"] != "use" or op_place(ds[0][3]["op"]) is None or not op_place(ds[0][3]["op"])["p"]:
+                continue
+            if pdest in backward_direct(P, l, depth=40)[0]:
+                roots.append(l)
+                starts[ds[0][1]] = set(st0)
+        if roots:
+            c, _ = lock_typestate(ctx, "R9.1", P, k, roots=roots, pre=pre, starts=starts)
+            n += c
+    ctx.floor("R9.1", "Lock method call sites with an obligation", n, 12)
+    # every body that calls an asserting Lock method was analysed
     for b in anchors.bodies_calling(prog, r"state::Lock::(unlock|try_lock|wait_lock|check)"):
         if b.key in internal:
             continue
@@ -130,43 +186,54 @@ def run(ctx):
     token_read_guard(ctx, "R9.2")
     surplus_released(ctx, "R9.2")
 
-    # ---- R9.3
-    waits = ba.calls(r"state::Lock::wait_lock")
-    ctx.floor("R9.3", "blocking wait_lock sites in the scheduler", len(waits), 1)
-    cw = classify_waits(S, prog)
-    loss_ready = [r for _, r in cw["loss"] if r is not None]
-    gains = {r for _, r in cw["gain"] if r is not None}
-    # "drained": an await that polls the job-future stream to exhaustion
+    # ---- R9.3 (over the scheduler and the coroutines it awaits in place: `parts`, see R9.1)
+    ctx.floor("R9.3", "blocking wait_lock sites in the scheduler", sum(len(BA.of(B).calls(r"state::Lock::wait_lock")) for B, _ in parts), 1)
+    # "drained": an await that polls the job-future stream to exhaustion (the stream and its pushes belong to S)
     drains = set(common.drain_ready_blocks(S))
     pushes = ba.calls(common.PUSH)
-    rms = set(ba.calls(r"jobserver::JobServerHandle::release_mine"))
-    unlocks = set(ba.calls(r"state::Lock::unlock"))
-    etoc = ba.calls(r"jobserver::JobServerHandle::ensure_token_or_cheat")
-    for k, w in common.ordinal_keys([("wait_lock", w) for w in waits]):
-        # (a) since the last push of a job future, a drain precedes the blocking wait
-        p = ba.path(pushes, [w], avoid=frozenset(drains)) if pushes else None
-        ctx.ob("R9.3", "%s|%s|job-futures-drained" % (S.key, k), p is None, where=ctx.where(S, w),
-               detail=("wait_all only says the children exited; their job futures (which still own the targets' locks and have not recorded results) "
-                       "need not have been polled: the blocking wait can be entered while holding those locks") if p else
-               "every path from a push to the blocking wait drains the job futures",
-               witness={"path": p[:25] if p else None})
-        # (b) own token given up first: since the last token gain, release_mine precedes
-        src = sorted(gains) + loss_ready
-        p = ba.path(src, [w], avoid=frozenset(rms), incl=True)
-        # paths from wait_all resume hold no token by definition only if nothing regained it; require release_mine regardless
-        ctx.ob("R9.3", "%s|%s|release_mine-first" % (S.key, k), p is None, where=ctx.where(S, w),
-               detail="release_mine precedes the blocking wait on every path" if p is None else "blocking wait entered while holding a job token",
-               witness={"path": p[:25] if p else None})
-        # (c) the lock obtained is released before the next token wait
-        nxt = S.blocks[w]["term"].get("target")
-        p = ba.path([nxt], etoc, avoid=frozenset(unlocks), incl=True) if nxt is not None else None
-        ctx.ob("R9.3", "%s|%s|unlock-before-token-wait" % (S.key, k), p is None, where=ctx.where(S, w),
-               detail="the lock is unlocked before ensure_token_or_cheat" if p is None else "ensure_token_or_cheat can run while the lock from the blocking wait is held (deadlock with the holder of the tokens)",
-               witness={"path": p[:25] if p else None})
-        chk = ba.calls(r"state::Lock::check")
-        p = ba.path(loss_ready, [w], avoid=frozenset(chk), incl=True)
-        ctx.ob("R9.3", "%s|%s|cycle-check-first" % (S.key, k), p is None, where=ctx.where(S, w),
-               detail="Lock::check precedes the blocking wait" if p is None else "blocking wait without the cycle check")
+    for B, via in parts:
+        pba = BA.of(B)
+        waits = pba.calls(r"state::Lock::wait_lock")
+        if not waits:
+            continue
+        cw = classify_waits(B, prog)
+        loss_ready = [r for _, r in cw["loss"] if r is not None]
+        gains = {r for _, r in cw["gain"] if r is not None}
+        rms = set(pba.calls(r"jobserver::JobServerHandle::release_mine"))
+        unlocks = set(pba.calls(r"state::Lock::unlock"))
+        etoc = pba.calls(r"jobserver::JobServerHandle::ensure_token_or_cheat")
+        # a coroutine awaited in place starts in whatever state its caller is in: holding a token, cycle check not
+        # yet made; and what it returns to goes on to wait for tokens
+        entry = [0] if via is not None else []
+        after = (common.ok_returns(B) or pba.returns()) if via is not None else []
+        for k, w in common.ordinal_keys([("wait_lock", w) for w in waits]):
+            # (a) since the last push of a job future, a drain precedes the blocking wait
+            tgt = w if via is None else via
+            p = ba.path(pushes, [tgt], avoid=frozenset(drains)) if pushes else None
+            if p is None and via is not None and pba.calls(common.PUSH):
+                p = pba.path(pba.calls(common.PUSH), [w])
+            ctx.ob("R9.3", "%s|%s|job-futures-drained" % (B.key, k), p is None, where=ctx.where(B, w),
+                   detail=("wait_all only says the children exited; their job futures (which still own the targets' locks and have not recorded results) "
+                           "need not have been polled: the blocking wait can be entered while holding those locks") if p else
+                   "every path from a push to the blocking wait drains the job futures",
+                   witness={"path": p[:25] if p else None})
+            # (b) own token given up first: since the last token gain, release_mine precedes
+            src = sorted(gains) + loss_ready + entry
+            p = pba.path(src, [w], avoid=frozenset(rms), incl=True)
+            # paths from wait_all resume hold no token by definition only if nothing regained it; require release_mine regardless
+            ctx.ob("R9.3", "%s|%s|release_mine-first" % (B.key, k), p is None, where=ctx.where(B, w),
+                   detail="release_mine precedes the blocking wait on every path" if p is None else "blocking wait entered while holding a job token",
+                   witness={"path": p[:25] if p else None})
+            # (c) the lock obtained is released before the next token wait
+            nxt = B.blocks[w]["term"].get("target")
+            p = pba.path([nxt], list(etoc) + list(after), avoid=frozenset(unlocks), incl=True) if nxt is not None else None
+            ctx.ob("R9.3", "%s|%s|unlock-before-token-wait" % (B.key, k), p is None, where=ctx.where(B, w),
+                   detail="the lock is unlocked before ensure_token_or_cheat" if p is None else "ensure_token_or_cheat can run while the lock from the blocking wait is held (deadlock with the holder of the tokens)",
+                   witness={"path": p[:25] if p else None})
+            chk = pba.calls(r"state::Lock::check")
+            p = pba.path(loss_ready + entry, [w], avoid=frozenset(chk), incl=True)
+            ctx.ob("R9.3", "%s|%s|cycle-check-first" % (B.key, k), p is None, where=ctx.where(B, w),
+                   detail="Lock::check precedes the blocking wait" if p is None else "blocking wait without the cycle check")
 
     # ---- R9.4
     dedupe_rule(ctx, "R9.4")
@@ -174,7 +241,9 @@ def run(ctx):
     # ---- R9.5
     bo = anchors.event_loop(prog)
     bba = BA.of(bo)
-    sel = bba.calls(r"nix::sys::select::select")
+    # the select() calls the loop can wait in (a zero-timeout readiness probe of one fd - try_read's, wherever its code
+    # stands - cannot wait and is no wake-up)
+    sel = blocking_selects(bo)
     polls = [i for i in bba.calls(r".*future::future::Future::poll")]
     hi = bba.switches_on_call(r"core::option::Option::is_none")
     ok = False
@@ -232,15 +301,11 @@ def run(ctx):
             inplace = name.endswith("_assign")
             if inplace:
                 var = bba.base_local_of_ref(op_local(t["args"][0]))
-            else:
-                var = op_local(t["args"][0])
-                sl, _, _ = backward_direct(b, var, depth=20)
-                named = [x for x in sl if b.local_name(x) != "_%d" % x]
-                var = named[0] if named else var
-            # every origin of the variable's value is a constructor from a constant or a cmp::min result
+            # every origin of the multiplied value is a constructor from a constant or a cmp::min result; the value
+            # may be kept in a local or in a field of a state struct (both are followed through all their assignments)
             ALLOWED = r"core::cmp::min|core::time::Duration::from_(millis|secs|micros|nanos)|core::time::Duration::new|core::cmp::Ord::min|<core::time::Duration as core::cmp::Ord>::min"
-            _, org, _ = backward_direct(b, var, depth=40)
-            ok = (not inplace) and bool(org) and all(o[0] == "call" and call_matches(o[2], ALLOWED) for o in org)
+            org = common.cell_origins(b, t["args"][0]) if not inplace else []
+            ok = (not inplace) and bool(org) and all(o[0] == "const" or (o[0] == "call" and call_matches(o[2], ALLOWED)) for o in org)
             if inplace:
                 # in-place growth: acceptable only if a clamp of the same variable lies on every way round the loop
                 clamps = [d[1] for d in bba.defs.get(var, []) if d[0] == "call" and call_matches(d[2], r"core::cmp::min|core::cmp::Ord::min")]
